@@ -41,6 +41,7 @@ var c19 = ev.Open("C19", "exploration",
 		"non-ready wallet state (distinct by method + argument hash).")
 
 type apiCtx struct {
+	removed                []*mwallet // wallets removed during the case
 	w                      *World
 	srv                    *api.APIServer
 	txHex                  []string // valid raw transaction hex blobs produced so far
@@ -85,6 +86,13 @@ func (a *apiCtx) pools(t *rapid.T) (txids []string, addrs []string, walletIDs []
 			addrs = append(addrs, ia.Std)
 			stk, _ := massutil.NewAddressStakingScriptHash(ia.Hash[:], config.ChainParams)
 			addrs = append(addrs, stk.EncodeAddress())
+		}
+		walletIDs = append(walletIDs, m.id)
+	}
+	// a wallet that was removed (or is being removed) during this case: its id and addresses stay in the pools
+	for _, m := range a.removed {
+		for _, ia := range m.issued {
+			addrs = append(addrs, ia.Std)
 		}
 		walletIDs = append(walletIDs, m.id)
 	}
@@ -184,18 +192,34 @@ func (a *apiCtx) genHex(t *rapid.T) string {
 }
 
 // callAPI draws one API call and runs it under the guard.
-func (a *apiCtx) callAPI(t *rapid.T) {
+var c19methods = []string{"DecodeRawTransaction", "CreateRawTransaction", "CreateStakingTransaction", "CreateBindingTransaction",
+	"AutoCreateTransaction", "GetTransactionFee", "TxHistory", "GetStakingHistory", "GetBindingHistory", "SignRawTransaction", "CreateAddress",
+	"GetAddresses", "ValidateAddress", "GetWalletBalance", "GetAddressBalance", "UseWallet", "Wallets", "GetUtxo", "ImportWallet", "ImportMnemonic",
+	"CreateWallet", "ExportWallet", "GetWalletMnemonic", "RemoveWalletWrongPass", "CreatePoolPkCoinbaseTransaction", "GetRawTransaction", "GetTxStatus",
+	"GetClientStatus", "GetBestBlock", "GetBlockByHeight", "GetNetworkBinding", "CheckPoolPkCoinbase", "CheckTargetBinding", "SendRawTransaction"}
+
+func (a *apiCtx) callAPI(t *rapid.T) { a.callMethod(t, "") }
+
+// battery calls every method once (arguments drawn as usual): run right after a change of the wallet's
+// state (import accepted, removal accepted, removal finished, restart), so that each method meets each
+// state at least once per case instead of by chance.
+func (a *apiCtx) battery(t *rapid.T) {
+	for _, m := range c19methods {
+		a.callMethod(t, m)
+	}
+}
+
+func (a *apiCtx) callMethod(t *rapid.T, forced string) {
 	txids, addrs, wids := a.pools(t)
 	ctx := context.Background()
 	passPool := []string{"", "123456", "wrongPass12", strings.Repeat("p", 41), "\x00\xff"}
 	for _, m := range a.w.wallets {
 		passPool = append(passPool, m.keys.Pass)
 	}
-	method := rapid.SampledFrom([]string{"DecodeRawTransaction", "CreateRawTransaction", "CreateStakingTransaction", "CreateBindingTransaction",
-		"AutoCreateTransaction", "GetTransactionFee", "TxHistory", "GetStakingHistory", "GetBindingHistory", "SignRawTransaction", "CreateAddress",
-		"GetAddresses", "ValidateAddress", "GetWalletBalance", "GetAddressBalance", "UseWallet", "Wallets", "GetUtxo", "ImportWallet", "ImportMnemonic",
-		"CreateWallet", "ExportWallet", "GetWalletMnemonic", "RemoveWalletWrongPass", "CreatePoolPkCoinbaseTransaction", "GetRawTransaction", "GetTxStatus",
-		"GetClientStatus", "GetBestBlock", "GetBlockByHeight", "GetNetworkBinding", "CheckPoolPkCoinbase", "CheckTargetBinding", "SendRawTransaction"}).Draw(t, "method")
+	method := forced
+	if method == "" {
+		method = rapid.SampledFrom(c19methods).Draw(t, "method")
+	}
 	var desc string
 	var run func() (interface{}, error)
 	switch method {
@@ -558,6 +582,7 @@ func propC19(t *rapid.T) {
 			lateImport = true
 			a.state = "a-wallet-importing"
 			w.logf("late wallet importing")
+			a.battery(t)
 		},
 		"restart": func(t *rapid.T) {
 			// the service is stopped and started again on the same data directory: tip copy, pending
@@ -583,6 +608,35 @@ func propC19(t *rapid.T) {
 				a.state = "no-wallet-selected"
 			}
 			w.logf("restart")
+			a.battery(t)
+		},
+		"removeSelected": func(t *rapid.T) {
+			// the wallet in use is removed (right passphrase, through the API); requests keep coming while
+			// the removal runs and after it has finished - nothing selects another wallet for them
+			if len(a.removed) > 0 || len(w.wallets) < 2 || w.taskPending(t) || rapid.IntRange(0, 2).Draw(t, "doRemove") > 0 {
+				t.Skip("rare")
+			}
+			i := rapid.IntRange(0, len(w.wallets)-1).Draw(t, "victim")
+			m := w.wallets[i]
+			if ready, rem, ex := w.walletStatus(t, m.id); !ex || !ready || rem {
+				t.Skip("not ready")
+			}
+			if _, err := w.env.W.UseWallet(m.id); err != nil {
+				t.Fatalf("UseWallet: %v", err)
+			}
+			var rerr error
+			guarded("RemoveWallet", func() {
+				_, rerr = a.srv.RemoveWallet(context.Background(), &pb.RemoveWalletRequest{WalletId: m.id, Passphrase: m.keys.Pass})
+			})
+			if rerr != nil {
+				t.Fatalf("API RemoveWallet(selected wallet, right passphrase): %v", rerr)
+			}
+			w.wallets = append(w.wallets[:i:i], w.wallets[i+1:]...)
+			// (from now on the victim's coins are nobody's for the block generator, as in C08)
+			a.removed = append(a.removed, m)
+			a.state = "selected-wallet-being-removed"
+			w.logf("remove selected wallet %s", m.id[:10])
+			a.battery(t)
 		},
 		"serve": func(t *rapid.T) {
 			if !w.taskPending(t) {
@@ -594,7 +648,12 @@ func propC19(t *rapid.T) {
 				}
 			})
 			if !w.taskPending(t) {
-				a.state = "ready"
+				if a.state == "selected-wallet-being-removed" {
+					a.state = "selected-wallet-removed"
+					a.battery(t)
+				} else {
+					a.state = "ready"
+				}
 			}
 		},
 		"": func(t *rapid.T) {},
